@@ -2,7 +2,11 @@
 // that units/int64parse proves for the real function relative to strtoll (C27). C linkage so that the model can be C.
 #ifndef CV_STUB_HTTPHEADERTOOLS_H
 #define CV_STUB_HTTPHEADERTOOLS_H
+#ifdef CV_NATIVE_REPLAY   /* native replay: the real function text (native_deps.inc) over glibc strtoll */
+bool httpHeaderParseOffset(const char *start, int64_t *offPtr, char **endPtr = nullptr);
+#else
 extern "C" int cv_httpHeaderParseOffset(const char *start, int64_t *offPtr, char **endPtr);
 inline bool httpHeaderParseOffset(const char *start, int64_t *offPtr, char **endPtr = nullptr)
 { return cv_httpHeaderParseOffset(start, offPtr, endPtr) != 0; }
+#endif
 #endif
